@@ -266,6 +266,17 @@ impl DirImage {
         Ok(DirImage { files })
     }
 
+    /// The directory including its `.lock` file (content and length): "a refused open does not
+    /// modify any file" covers the lock file too.
+    pub fn snapshot_with_lock(dir: &Path) -> std::io::Result<Self> {
+        let mut img = Self::snapshot(dir)?;
+        let lock = dir.join(".lock");
+        if lock.exists() {
+            img.files.insert(".lock".to_string(), SparseFile::read_from(&lock)?);
+        }
+        Ok(img)
+    }
+
     pub fn materialize(&self, dir: &Path) -> std::io::Result<()> {
         let _ = std::fs::remove_dir_all(dir);
         std::fs::create_dir_all(dir)?;
